@@ -51,11 +51,21 @@ def _run(repo, mode, work, timeout=600):
         return dict(found=False, note='unreadable witness output: %s' % e)
 
 
+TIMED = ('loop', 'subs', 'block', 'channeled', 'iter', 'latereg', 'twostores')
+
+
 def search(prop, failure, repo, work, seed):
     suites = SUITES.get(prop, [])
     if not suites:
         return dict(found=False, note='no witness suite covers this property', bounds=BOUNDS)
     r = _run(repo, 'search:' + ','.join(suites), work)
+    if r.get('found') and r.get('suite') in TIMED and r.get('case'):
+        # suites that use real threads: a hit must reproduce (3 out of 3) before it is reported
+        cf = os.path.join(work, 'witness_case.txt')
+        open(cf, 'w').write(r['case'])
+        again = [_run(repo, 'replay:' + cf, work) for _ in range(2)]
+        if not all(a.get('found') for a in again):
+            r = dict(found=False, note='a hit of suite %s (%s) did not reproduce: discarded as timing noise' % (r.get('suite'), r.get('case')))
     r['suites'] = suites
     r['bounds'] = BOUNDS
     return r
